@@ -16,6 +16,7 @@ mod pcol;
 mod galgo;
 mod vecidx;
 mod exec;
+mod front;
 mod q;
 mod qmeta;
 mod txstress;
@@ -46,6 +47,7 @@ fn main() {
         "galgo" => galgo::main(&opts),
         "vec" => vecidx::main(&opts),
         "exec" => exec::main(&opts),
+        "front" => front::main(&opts),
         "snapfault" => snap::faults(&opts),
         "q" => q::main(&opts),
         "qprobe" => q::probe(&opts),
